@@ -116,7 +116,18 @@ def lean_build(targets: List[str]) -> Tuple[bool, str]:
 def props_modules(prop: str) -> List[str]:
     """Theorem modules of a property: Props/Cxx.lean plus any Props/Cxx<Suffix>.lean (cross-property links)."""
     d = LEAN_DIR / "OdcGeo" / "Props"
-    return [f"OdcGeo.Props.{f.stem}" for f in sorted(d.glob(f"{prop}*.lean"))]
+    return [f"OdcGeo.Props.{f.stem}" for f in sorted(d.glob(f"{prop}*.lean"))] + _gentie_modules(prop)
+
+
+def _gentie_modules(prop: str) -> List[str]:
+    """Props/GenCxx.lean (source tie, harness/gentie.py) once the property is in gentie.GENTIE_READY and its tie
+    theorems built in this run; [] otherwise."""
+    try:
+        from . import gentie
+
+        return gentie.extra_modules(prop)
+    except Exception:  # pylint: disable=broad-except
+        return []
 
 
 def lean_audit(prop: str) -> Tuple[List[Dict[str, Any]], str]:
@@ -139,6 +150,7 @@ def lean_audit(prop: str) -> Tuple[List[Dict[str, Any]], str]:
 def lean_source_files(prop: str) -> List[Path]:
     """The project files in the import closure of the property's theorem file and driver."""
     roots = sorted((LEAN_DIR / "OdcGeo" / "Props").glob(f"{prop}*.lean")) + [LEAN_DIR / "Drivers" / f"{prop}.lean"]
+    roots += [LEAN_DIR / (m.replace(".", "/") + ".lean") for m in _gentie_modules(prop)]
     seen: Dict[Path, None] = {}
     todo = [r for r in roots if r.exists()]
     while todo:
